@@ -12,6 +12,7 @@ pub mod c10;
 pub mod c13;
 pub mod c14;
 pub mod c15;
+pub mod c17;
 pub mod c08;
 pub mod script;
 
@@ -30,6 +31,7 @@ pub fn dispatch(check: &str, rep: &mut Rep) -> bool {
         "c13" => c13::run(rep),
         "c14" => c14::run(rep),
         "c15" => c15::run(rep),
+        "c17" => c17::run(rep),
         _ => return false,
     }
     true
